@@ -9,27 +9,46 @@
   note") is built into the acceptor: `call nsync_note_free n` is rejected while another thread is
   inside a call whose argument is `n`, and every later call on `n` is rejected.
 
-  STATUS
-  * proved at full strength:
+  The model follows note.c AFTER the repair of the defects F4 and F7
+  (/verif/fixes/F4F7/note_fix.diff: "the last disconnector unlinks" — `n` is removed from
+  `parent->children` only by a thread that sees `n->disconnecting == 1`, the recursive call of
+  `note_notify_child` counts itself — and "adopters set parent->children_adopted and wake the
+  scanner, which rescans").
+
+  STATUS — everything is proved at full strength:
       `C09_lock_order`  — a thread waiting for the mutex of note `m` holds only mutexes of notes
                           strictly above `m` in the creation order (`Lt`: on `m`'s path to the root
-                          when `m` was created; this is insensitive to re-parenting and to stale
-                          `parent` locals, and it is the order "parent before child" of note.c:38);
+                          when `m` was created; it is the order "parent before child" of note.c:38);
       `C09_no_lock_cycle` — hence no cycle of threads each waiting for a mutex held by the next;
       `C09_holds_iff`   — the abstract mutexes agree with the program counters;
-      `C09_adoption`    — the adoption step of nsync_note_free, and `C09_free_leaves_no_child`.
-  * REFUTED at full strength (the code violates the property), with concrete accepted traces
-    recorded from the unmodified library:
-      `C09_no_use_after_free_witness` — NEW DEFECT F7: notify (n) ∥ notify (n) ∥ free (parent n):
-                          the second notifier is inside nsync_mu_lock (&parent->note_mu) when the
-                          parent is freed (note.c:124-127: `parent` is read under n's lock, the lock
-                          is dropped, and nothing keeps `parent` alive once the first notifier has
-                          unlinked n).
-      `C09_no_stuck_state_witness`   — known defect F4: notify (n) ∥ free (c), n → c → g.
-    Their restricted versions: `C09_no_use_after_free_partial` (the argument of the call itself is
-    never a freed note), `C09_no_stuck_state_partial` = `C09_no_lock_cycle`.
+      `C09_adoption`    — the adoption step of nsync_note_free (+ `C09_adoption_wakes`: it sets
+                          `children_adopted` of the adopting parent), `C09_free_leaves_no_child`;
+      `C09_no_use_after_free` — NO accepted step dereferences a freed note
+                          (`C09_no_use_after_free_full`, refuted on the unrepaired code by defect F7).
+                          Behind it (`InvLive`, Proofs/NoteFixG*.lean): a note on a children list is
+                          not freed, nor is the owner of the list; a note whose mutex is held is not
+                          freed; and I1 (`InvForest.linked`, Proofs/NoteRelF6.lean): the local
+                          `parent` of a disconnector of `n` is `n->parent`, with `n` on its children
+                          list, until that thread itself has seen `n` disconnected — so
+                          `nsync_note_free (parent)` cannot get past its WAIT_FOR_NO_CHILDREN.
+                          `C09_parent_not_stale` states I1.
+      `C09_no_stuck_state` — NO reachable state in which every thread is idle, blocked on a note
+                          mutex, blocked in WAIT_FOR_NO_CHILDREN or asleep has a thread blocked on a
+                          mutex or in WAIT_FOR_NO_CHILDREN (`C09_no_stuck_state_full`, refuted on the
+                          unrepaired code by defect F4).  Behind it (Proofs/NoteFixP*.lean): I2
+                          (`C09_wait_has_disconnectors`: while a thread is inside a
+                          WAIT_FOR_NO_CHILDREN (`n`) whose condition is false, every child of `n` is
+                          `disconnecting`), the exact count `InvForest.cnt` (`n->disconnecting` is the
+                          number of threads that have incremented it and not yet decremented it), and
+                          the locking order.
+    The former refutations `C09_no_use_after_free_witness` / `C09_no_stuck_state_witness` (accepted
+    traces of the UNREPAIRED library) are gone with the defects: `f7_repaired` / `f4_not_stuck` below
+    replay the same scenarios on the repaired library.  /verif/corpus/C09/f7_*.txt, f4b_*.txt and
+    /verif/corpus/C08/f4_*.txt stay as regressions.
+    The former partial statements are kept as corollaries (`C09_no_use_after_free_partial`,
+    `C09_no_stuck_state_partial`).
 -/
-import NsyncVerif.Proofs.NoteInvU
+import NsyncVerif.Proofs.NoteFixP7
 import NsyncVerif.Proofs.NoteWitness
 
 set_option linter.unusedSimpArgs false
@@ -48,67 +67,8 @@ theorem C09_holds_iff {s : State} (hr : Reachable s) (k : NoteId) (t : Tid) :
     (inside `nsync_mu_lock`, or re-acquiring in WAIT_FOR_NO_CHILDREN) holds only mutexes of notes
     strictly above `m`. -/
 theorem C09_lock_order {s : State} (hr : Reachable s) {t : Tid} {m h : NoteId}
-    (hw : (s.pc t).wants = some m) (hh : (s.notes h).lockHolder = some t) : Lt s h m := by
-  obtain ⟨_, _, hS, _, hL, hK⟩ := hr.inv6
-  have hmem := (hK.iff h t).mp hh
-  have hc := hL.claim t
-  cases hpc : s.pc t with
-  | dl pos n nt dk =>
-    rw [hpc] at hw hmem
-    cases pos <;> simp [PC.wants] at hw <;> simp [PC.held] at hmem
-  | nfy pos n par nk =>
-    rw [hpc] at hw hmem hc
-    cases pos <;> simp [PC.wants] at hw <;> simp [PC.held] at hmem
-    · subst hw; exact hc h hmem
-  | chd pos stk top =>
-    rw [hpc] at hw hmem hc
-    cases pos with
-    | lockChildRet c =>
-      simp only [PC.wants, Option.some.injEq] at hw
-      subst hw
-      exact LClaim.above_cur hL hc rfl h (by simpa [PC.held] using hmem)
-    | waitRet b =>
-      cases b with
-      | true => simp [PC.wants] at hw
-      | false =>
-        cases stk with
-        | nil => simp [PC.wants] at hw
-        | cons f rest =>
-          simp only [PC.wants, List.head?_cons, Option.map_some, Option.some.injEq] at hw
-          subst hw
-          exact LClaim.above_head hL hc h (by simpa [PC.held] using hmem)
-    | _ => simp [PC.wants] at hw
-  | newP pos n p dl =>
-    rw [hpc] at hw hmem
-    cases pos <;> simp [PC.wants] at hw <;> simp [PC.held] at hmem
-  | fr pos n par c nx =>
-    rw [hpc] at hw hmem hc
-    cases pos with
-    | sLockNRet =>
-      simp only [PC.wants, Option.some.injEq] at hw
-      subst hw
-      exact hc.2.1 h (by simpa [PC.held] using hmem)
-    | lockChildRet =>
-      simp only [PC.wants, Option.some.injEq] at hw
-      subst hw
-      simp only [PC.held, List.mem_cons] at hmem
-      rcases hmem with hm | hm
-      · subst hm; exact hc.2.2 rfl
-      · exact Lt.trans hL (hc.2.1 h (by simpa using hm)) (hc.2.2 rfl)
-    | waitRet b =>
-      cases b with
-      | true => simp [PC.wants] at hw
-      | false =>
-        simp only [PC.wants, Option.some.injEq] at hw
-        subst hw
-        exact hc.2.1 h (by simpa [PC.held] using hmem)
-    | lockRet => simp [PC.held] at hmem
-    | sLockPRet => simp [PC.held] at hmem
-    | _ => simp [PC.wants] at hw
-  | wt pos n wdl r =>
-    rw [hpc] at hw hmem
-    cases pos <;> simp [PC.wants] at hw <;> simp [PC.held] at hmem
-  | _ => rw [hpc] at hw; simp [PC.wants] at hw
+    (hw : (s.pc t).wants = some m) (hh : (s.notes h).lockHolder = some t) : Lt s h m :=
+  lock_order hr hw hh
 
 /-- Thread `t` waits for a mutex held by thread `u`. -/
 def WaitsFor (s : State) (t u : Tid) : Prop :=
@@ -164,7 +124,7 @@ theorem C09_no_lock_cycle {s : State} (hr : Reachable s) (t : Tid) : ¬ WaitChai
 /-! ### Adoption -/
 
 /-- C09 ("the children of a freed note are adopted by its parent"): the step of
-    `nsync_note_free (n)` that finds the child `c` not disconnecting (note.c:212-221) makes the
+    `nsync_note_free (n)` that finds the child `c` not disconnecting (note.c:255-270) makes the
     former parent `p` of `n` the parent of `c` and appends `c` to `p`'s children; `c` keeps
     everything else (flag, waiters, own children). -/
 theorem C09_adoption {s s' : State} (hr : Reachable s) {t : Tid} {n p c : NoteId}
@@ -185,8 +145,16 @@ theorem C09_adoption {s s' : State} (hr : Reachable s) {t : Tid} {n p c : NoteId
   cases hs
   simp only [setPc_notes, link_f_parent, link_f_children, link_f_notified, link_f_waiters,
     eraseChild_f_parent, eraseChild_f_children, eraseChild_f_notified, eraseChild_f_waiters,
-    acquire_f_parent, acquire_f_children, acquire_f_notified, acquire_f_waiters, if_true]
+    acquire_f_parent, acquire_f_children, acquire_f_notified, acquire_f_waiters, if_true,
+    setAdopted_f_parent, setAdopted_f_children, setAdopted_f_notified, setAdopted_f_waiters]
   exact ⟨trivial, by simp, by simp [h1, h2], trivial, trivial, by simp⟩
+
+/-- … and wakes a thread that is notifying or freeing `p` and may already have examined the
+    children of `p` (repair of F4): `p->children_adopted` is set. -/
+theorem C09_adoption_wakes {s s' : State} {t : Tid} {n p c : NoteId} {nx : Option NoteId}
+    (hpc : s.pc t = .fr .lockChildRet n (some p) c nx) (hd : (s.notes c).disconnecting = 0)
+    (hs : step s (.lockRet t) = .ok s') : (s'.notes p).adopted = true :=
+  step_adopt_sets hpc hd hs
 
 /-- … and a parentless `n` simply drops the child (it becomes a root). -/
 theorem C09_adoption_root {s s' : State} {t : Tid} {n c : NoteId} {nx : Option NoteId}
@@ -197,26 +165,42 @@ theorem C09_adoption_root {s s' : State} {t : Tid} {n c : NoteId} {nx : Option N
   cases hs
   simp
 
-/-- When `nsync_note_free (n)` passes WAIT_FOR_NO_CHILDREN no child is left behind: every child was
-    adopted (above) or has disconnected itself (it was `disconnecting`). -/
+/-- When `nsync_note_free (n)` leaves its WAIT_FOR_NO_CHILDREN, either no child is left behind —
+    every child was adopted (above) or has disconnected itself (it was `disconnecting`) — and `n`
+    is disconnected from its parent; or children were adopted by `n` meanwhile
+    (`n->children_adopted`), and `nsync_note_free` scans the list again (repair of F4). -/
 theorem C09_free_leaves_no_child {s s' : State} {t : Tid} {kept : Bool} {n c : NoteId}
     {par nx : Option NoteId} (hpc : s.pc t = .fr (.waitRet kept) n par c nx)
     (hs : step s (.waitRet t) = .ok s') :
-    (s.notes n).children = [] ∧ (s'.notes n).children = [] ∧
-    (∀ p, par = some p → (s'.notes n).parent = none) := by
+    ((s.notes n).children = [] ∧ (s'.notes n).children = [] ∧
+      (∀ p, par = some p → (s'.notes n).parent = none) ∧
+      (s'.pc t = .fr .unlockPCall n par c nx ∨ s'.pc t = .fr .unlockCall n par c nx)) ∨
+    ((s.notes n).children ≠ [] ∧ (s.notes n).adopted = true ∧
+      s' = freeLoopStart (s.acquire n t) t n par) := by
   simp only [step, stepWaitRet, hpc, need_ok] at hs
-  obtain ⟨h1, _, hs⟩ := hs
-  refine ⟨h1, ?_, ?_⟩
-  · cases par with
-    | none => simp only [Except.ok.injEq] at hs; cases hs; simp [h1]
-    | some p =>
+  obtain ⟨hwd, _, hs⟩ := hs
+  by_cases h1 : (s.notes n).children = []
+  · left
+    rw [if_pos h1] at hs
+    refine ⟨h1, ?_, ?_, ?_⟩
+    · cases par with
+      | none => simp only [Except.ok.injEq] at hs; cases hs; simp [h1]
+      | some p =>
+        simp only [Except.ok.injEq] at hs; cases hs
+        simp only [setPc_notes, unlink_f_children, acquire_f_children, h1]
+        split <;> simp
+    · intro p hp
+      subst hp
       simp only [Except.ok.injEq] at hs; cases hs
-      simp only [setPc_notes, unlink_f_children, acquire_f_children, h1]
-      split <;> simp
-  · intro p hp
-    subst hp
-    simp only [Except.ok.injEq] at hs; cases hs
-    simp
+      simp
+    · cases par with
+      | none => simp only [Except.ok.injEq] at hs; cases hs; right; simp
+      | some p => simp only [Except.ok.injEq] at hs; cases hs; left; simp
+  · right
+    rw [if_neg h1] at hs
+    simp only [Except.ok.injEq] at hs
+    refine ⟨h1, ?_, hs.symm⟩
+    simpa [NoteRec.waitDone, h1] using hwd
 
 /-! ### Use after free -/
 
@@ -226,26 +210,77 @@ def C09_no_use_after_free_full : Prop :=
   ∀ (s s' : State) (e : Event), Reachable s → step s e = .ok s' →
     ∀ k, k ∈ touches s e → (s.notes k).freed = false
 
+/-- C09 ("none touches a note after that note's nsync_note_free has returned"), at full strength,
+    for the repaired code: in every reachable state, every note an accepted step dereferences — the
+    argument of the call, the note being created, the local `parent` of `notify` /
+    `nsync_note_free`, the notes of the activations of `note_notify_child`, the child a loop is
+    working on, and the neighbours on the children lists that are walked or edited — is a note on
+    which `free` has not been performed. -/
+theorem C09_no_use_after_free : C09_no_use_after_free_full :=
+  fun _ _ _ hr hs k hk => touches_live hr hr.invLive hs k hk
+
+/-- I1 of the repair of F7 ("the last disconnector unlinks"): the `parent` that a thread inside
+    `notify (n)` / `nsync_note_free (n)` read from `n->parent` is still `n`'s parent, `n` is still
+    on its children list and it is not freed — also while the thread holds neither mutex —, as long
+    as the thread has not executed the end of its own `note_notify_child (n, parent)` / its own
+    disconnection of `n`. -/
+theorem C09_parent_not_stale {s : State} (hr : Reachable s) {t : Tid} {n p : NoteId}
+    (h : (s.pc t).linked = some (n, p)) :
+    (s.notes n).parent = some p ∧ n ∈ (s.notes p).children ∧ (s.notes p).freed = false := by
+  have h1 := hr.invForest.linked t n p h
+  have h2 := hr.invT.p2c p n h1
+  exact ⟨h1, h2, (hr.invLive.child p n h2).2⟩
+
+/-- A note on a children list is not freed, nor is the owner of the list; a note whose mutex is
+    held is not freed. -/
+theorem C09_linked_or_locked_is_live {s : State} (hr : Reachable s) :
+    (∀ p c, c ∈ (s.notes p).children → (s.notes c).freed = false ∧ (s.notes p).freed = false) ∧
+    (∀ k t, (s.notes k).lockHolder = some t → (s.notes k).freed = false) :=
+  ⟨hr.invLive.child, hr.invLive.held⟩
+
 theorem f7_ok : (run init Traces.f7Trace).toOption.isSome = true := by decide
+theorem f7_prefix_ok : (run init (Traces.f7Trace.take 78)).toOption.isSome = true := by decide
 
-/-- NEW DEFECT F7 (accepted trace recorded from the unmodified library; tree note0 → note1):
-    T0 and T1 call `nsync_note_notify (note1)`, T2 calls `nsync_note_free (note0)`.  Both notifiers
-    increment `disconnecting`, read `parent = note0`, fail the trylock and drop note1's lock; T1
-    notifies and unlinks note1; T2 (whose loop skipped the disconnecting note1) now finds no children,
-    frees note0 and returns; T0 is still inside `nsync_mu_lock (&note0->note_mu)` (note.c:127) and
-    completes it on freed memory. -/
-theorem C09_no_use_after_free_witness : ¬ C09_no_use_after_free_full := by
-  intro h
-  have hstep : (step (stateAfter _ f7_ok) (.lockRet 0)).toOption.isSome = true := by decide
-  obtain ⟨s', hs'⟩ := step_of_isSome hstep
-  have := h _ s' (.lockRet 0) (reachable_stateAfter _ f7_ok) hs' 0 (by decide)
-  have hf : ((stateAfter _ f7_ok).notes 0).freed = true := by decide
-  rw [hf] at this
-  cases this
+/-- The scenario of the former defect F7 on the repaired library (tree note0 → note1; T0 and T1
+    call `nsync_note_notify (note1)`, T2 calls `nsync_note_free (note0)`; trace recorded with
+    `vfh run … seed=1 strategy=1`).  After 78 events both notifiers have incremented
+    `disconnecting`, read `parent = note0`, failed the trylock and dropped note1's lock; T1 has
+    notified note1 and returned WITHOUT disconnecting it (`disconnecting` was 2); T0 is inside
+    `nsync_mu_lock (&note0->note_mu)` holding the possibly stale `parent`: but note1 is still on
+    note0's list, T2 is still inside WAIT_FOR_NO_CHILDREN (note0), and note0 is not freed.  At the
+    end of the run T0 has disconnected note1 as the last disconnector, and only then T2 has freed
+    note0. -/
+theorem f7_repaired :
+    let s1 := stateAfter _ f7_prefix_ok
+    let s2 := stateAfter _ f7_ok
+    (s1.pc 0 = .nfy .sLockPRet 1 (some 0) .ofApi ∧ s1.pc 1 = .idle ∧
+      s1.pc 2 = .fr (.waitRet false) 0 none 0 none ∧
+      (s1.notes 1).notified = true ∧ (s1.notes 1).parent = some 0 ∧
+      (s1.notes 0).children = [1] ∧ (s1.notes 1).disconnecting = 1 ∧
+      (s1.notes 0).freed = false ∧ (s1.notes 0).waitDone = false) ∧
+    (s2.pc 0 = .idle ∧ s2.pc 2 = .idle ∧ (s2.notes 0).freed = true ∧
+      (s2.notes 1).parent = none ∧ (s2.notes 1).disconnecting = 0 ∧
+      (s2.notes 1).freed = false) := by
+  decide
 
-/-- C09 (proved part): the note passed to a call in progress is never a freed note — except for
-    the `nsync_note_free` call itself between its `free` and its return.  (What the defect F7
-    breaks is the liveness of the *parent* read from `n->parent`, not of the argument.) -/
+/-- What the UNREPAIRED code did in this scenario (defect F7; the accepted trace of the unrepaired
+    library was the former `C09_no_use_after_free_witness`): T1 disconnected note1 although T0 was
+    still counted in `note1->disconnecting`, T2 then freed note0, and T0 completed
+    `nsync_mu_lock (&note0->note_mu)` on freed memory.  On the repaired code the state after 78
+    events shows the difference: note1 is still linked (`disconnecting == 1`: T0), T2 still waits,
+    note0 is not freed.  (`f7_repaired`, first half, under the name the check uses for documented
+    old behaviour.) -/
+theorem C09_no_use_after_free_old_code_witness :
+    let s1 := stateAfter _ f7_prefix_ok
+    s1.pc 0 = .nfy .sLockPRet 1 (some 0) .ofApi ∧ s1.pc 2 = .fr (.waitRet false) 0 none 0 none ∧
+      (s1.notes 1).notified = true ∧ (s1.notes 1).parent = some 0 ∧
+      (s1.notes 1).disconnecting = 1 ∧ (s1.notes 0).freed = false ∧
+      0 ∈ touches s1 (.lockRet 0) := by
+  decide
+
+/-- The former partial statement, now a corollary of the invariants: the note passed to a call in
+    progress is never a freed note — except for the `nsync_note_free` call itself between its
+    `free` and its return. -/
 theorem C09_no_use_after_free_partial {s : State} (hr : Reachable s) {t : Tid} {n : NoteId}
     (harg : (s.pc t).arg = some n) :
     (s.notes n).freed = false ∨ (s.pc t).freedIt = true := by
@@ -265,28 +300,49 @@ theorem C09_free_is_exclusive {s : State} (hr : Reachable s) {t u : Tid} {n : No
 
 /-! ### No stuck state -/
 
-/-- Waiting for a note mutex that another thread holds. -/
-def LockBlocked (s : State) (t : Tid) : Prop :=
-  ∃ m u, (s.pc t).wants = some m ∧ (s.notes m).lockHolder = some u ∧ u ≠ t
-
-/-- Inside WAIT_FOR_NO_CHILDREN with a non-empty children list. -/
-def WaitBlocked (s : State) (t : Tid) : Prop :=
-  match s.pc t with
-  | .chd (.waitRet _) (f :: _) _ => (s.notes f.note).children ≠ []
-  | .fr (.waitRet _) n _ _ _ => (s.notes n).children ≠ []
-  | _ => False
-
-/-- Asleep on the semaphore of a `nsync_note_wait`. -/
-def Asleep (s : State) (t : Tid) : Prop :=
-  ∃ d n wdl r, s.pc t = .wt (.pdRet d) n wdl r
-
-/-- The statement at full strength: if every thread is idle, blocked on a note mutex, blocked in
-    WAIT_FOR_NO_CHILDREN or asleep in a wait, then no thread is blocked on a mutex or in
-    WAIT_FOR_NO_CHILDREN. -/
+/-- The statement at full strength: if every thread is idle, blocked on a note mutex (held by
+    another thread), blocked in WAIT_FOR_NO_CHILDREN (its condition — no children, or
+    `children_adopted` — is false) or asleep in a wait, then no thread is blocked on a mutex or in
+    WAIT_FOR_NO_CHILDREN.  (`LockBlocked`, `WaitBlocked`, `Asleep`: Proofs/NoteFixP7.lean.) -/
 def C09_no_stuck_state_full : Prop :=
   ∀ s, Reachable s →
     (∀ t, s.pc t = .idle ∨ LockBlocked s t ∨ WaitBlocked s t ∨ Asleep s t) →
     ∀ t, ¬ LockBlocked s t ∧ ¬ WaitBlocked s t
+
+/-- C09 ("no such call deadlocks"), at full strength, for the repaired code: there is no reachable
+    state in which some call is blocked and nobody can move.  In particular a
+    WAIT_FOR_NO_CHILDREN always has somebody responsible for emptying the list or for setting
+    `children_adopted` (`C09_wait_has_disconnectors`). -/
+theorem C09_no_stuck_state : C09_no_stuck_state_full :=
+  fun _ hr hall t => no_stuck_state hr hall t
+
+/-- I2 of the repair of F4: while a thread is inside a WAIT_FOR_NO_CHILDREN (`m`) whose condition
+    is false, every child `c` of `m` is `disconnecting`, and some thread is counted in
+    `c->disconnecting` — it is inside `notify (c)` / `nsync_note_free (c)` between the increment
+    and the decrement, or inside the recursive call `note_notify_child (c, …)` — and will
+    disconnect `c` (or leave that to another thread that is counted too, I1). -/
+theorem C09_wait_has_disconnectors {s : State} (hr : Reachable s) {t : Tid} {m : NoteId}
+    (hw : WaitBlockedOn s t m) :
+    (s.notes m).children ≠ [] ∧
+    ∀ c ∈ (s.notes m).children, (s.notes c).disconnecting ≠ 0 ∧ ∃ u, cntOf (s.pc u) c ≠ 0 := by
+  have hwd := hw.2
+  simp only [NoteRec.waitDone, Bool.or_eq_false_iff, decide_eq_false_iff_not] at hwd
+  obtain ⟨hne, had⟩ := hwd
+  have hsc : (m, none, none) ∈ (s.pc t).scans := by
+    rcases hw.1 with ⟨k, f, rest, top, hpc, rfl⟩ | ⟨k, par, c, nx, hpc⟩
+    · rw [hpc]; simp [PC.scans, CPos.scan, headScan]
+    · rw [hpc]; simp [PC.scans, FPos.scan, headScan]
+  refine ⟨hne, fun c hc => ?_⟩
+  have hd := hr.wait_children_disc hsc had c hc
+  exact ⟨hd, hr.invForest.cnt_pos hd⟩
+
+/-- `n->disconnecting` counts exactly the threads that have incremented it and not yet decremented
+    it (`L` lists the threads inside a call; `cntOf`: one per top-level section of `notify` /
+    `nsync_note_free` on `n`, one per inner activation of `note_notify_child` on `n`). -/
+theorem C09_disconnecting_count {s : State} (hr : Reachable s) :
+    ∃ L : List Tid, L.Nodup ∧ (∀ t, s.pc t ≠ .idle → t ∈ L) ∧
+      ∀ n, (s.notes n).disconnecting = (L.map (fun t => cntOf (s.pc t) n)).sum :=
+  hr.invForest.cnt
 
 /-- Threads that take no part in a trace stay idle. -/
 theorem pc_idle_of_not_actor {evs : List Event} {s0 s : State} (hr : run s0 evs = .ok s)
@@ -302,50 +358,50 @@ theorem pc_idle_of_not_actor {evs : List Event} {s0 s : State} (hr : run s0 evs 
         step_pc_other h1 t (ht e (List.mem_cons_self))]
     | error m => rw [h1] at hr; cases hr
 
+theorem f4p_ok : (run init Traces.f4Prefix).toOption.isSome = true := by decide
 theorem f4_ok : (run init Traces.f4Trace).toOption.isSome = true := by decide
 
-/-- Known defect F4 (accepted trace recorded from the unmodified library; tree
-    note0 → note1 → note2): T0 `nsync_note_notify (note0)` skips note1 because T1
-    `nsync_note_free (note1)` has marked it disconnecting, and sleeps in
-    WAIT_FOR_NO_CHILDREN (note0); T1 re-parents note2 under note0 and returns.  Final state: T1 and
-    the set-up thread idle, T0 in WAIT_FOR_NO_CHILDREN (note0) for ever: note0's children = [note2],
-    note2 is neither notified nor disconnecting. -/
-theorem C09_no_stuck_state_witness : ¬ C09_no_stuck_state_full := by
+/-- The scenario of the former defect F4 on the repaired library (tree note0 → note1 → note2;
+    T0 `nsync_note_notify (note0)` ∥ T1 `nsync_note_free (note1)`).  In the state in which the
+    unrepaired code was stuck for ever (T1 has returned, T0 inside WAIT_FOR_NO_CHILDREN (note0),
+    `note0->children = [note2]`, note2 neither notified nor `disconnecting`) T0 is NOT blocked any
+    more: `note0->children_adopted` is set, the condition of its wait holds, note0's mutex is free;
+    and it does go on (`f4Trace`): at the end everybody is idle and note2 is notified. -/
+theorem f4_not_stuck :
+    let s1 := stateAfter _ f4p_ok
+    let s2 := stateAfter _ f4_ok
+    (s1.pc 0 = .chd (.waitRet false) [⟨0, none⟩] ⟨0, none, .ofApi⟩ ∧ s1.pc 1 = .idle ∧
+      (s1.notes 0).children = [2] ∧ (s1.notes 2).disconnecting = 0 ∧
+      (s1.notes 0).adopted = true ∧ (s1.notes 0).lockHolder = none ∧
+      ¬ WaitBlocked s1 0 ∧ (step s1 (.waitRet 0)).toOption.isSome = true) ∧
+    (s2.pc 0 = .idle ∧ s2.pc 1 = .idle ∧ (s2.notes 2).notified = true ∧
+      (s2.notes 0).children = []) := by
+  refine ⟨⟨by decide, by decide, by decide, by decide, by decide, by decide, ?_, by decide⟩,
+    by decide, by decide, by decide, by decide⟩
   intro h
-  have hpc0 : (stateAfter _ f4_ok).pc 0 =
+  have hpc : (stateAfter _ f4p_ok).pc 0 =
       .chd (.waitRet false) [⟨0, none⟩] ⟨0, none, .ofApi⟩ := by decide
-  have hch : ((stateAfter _ f4_ok).notes 0).children = [2] := by decide
-  have hw : WaitBlocked (stateAfter _ f4_ok) 0 := by
-    unfold WaitBlocked; rw [hpc0]; simp [hch]
-  refine (h _ (reachable_stateAfter _ f4_ok) ?_ 0).2 hw
-  intro t
-  by_cases h0 : t = 0
-  · subst h0; right; right; left; exact hw
-  · left
-    by_cases h1 : t = 1
-    · subst h1; decide
-    · by_cases h99 : t = 99
-      · subst h99; decide
-      · have hact : ∀ e ∈ Traces.f4Trace, e.actor ≠ some t := by
-          have hall : Traces.f4Trace.all
-              (fun e => e.actor == some 0 || e.actor == some 1 || e.actor == some 99
-                || e.actor == none) = true := by decide
-          intro e he hea
-          have := List.all_eq_true.mp hall e he
-          rw [hea] at this
-          simp [h0, h1, h99] at this
-        exact pc_idle_of_not_actor (run_stateAfter _ f4_ok) t hact
+  unfold WaitBlocked at h
+  rw [hpc] at h
+  have hw : ((stateAfter _ f4p_ok).notes 0).waitDone = true := by decide
+  simp only at h
+  rw [hw] at h; cases h
 
-/-- What remains true (proved part): no deadlock among the mutexes alone. -/
+/-- What the UNREPAIRED code did in the F4 scenario (the former `C09_no_stuck_state_witness`): it
+    stopped for ever in the state after the first 82 events — everybody idle except T0, which was
+    inside WAIT_FOR_NO_CHILDREN (note0) with `note0->children = [note2]`, note2 not
+    `disconnecting`, and no `children_adopted` to end the wait.  (`f4_not_stuck`, first half, under
+    the name the check uses for documented old behaviour.) -/
+theorem C09_no_stuck_state_old_code_witness :
+    let s1 := stateAfter _ f4p_ok
+    s1.pc 0 = .chd (.waitRet false) [⟨0, none⟩] ⟨0, none, .ofApi⟩ ∧ s1.pc 1 = .idle ∧
+      s1.pc 99 = .idle ∧ (s1.notes 0).children = [2] ∧ (s1.notes 2).disconnecting = 0 ∧
+      (s1.notes 0).adopted = true ∧ (s1.notes 0).lockHolder = none := by
+  decide
+
+/-- The former partial statement (no deadlock among the mutexes alone), a corollary. -/
 theorem C09_no_stuck_state_partial {s : State} (hr : Reachable s) (t : Tid) :
     ¬ WaitChain s t t := C09_no_lock_cycle hr t
-
-/-- The notified flag of note2 in the F4 end state: never set, although its ancestor note0 is
-    notified and no thread will ever deliver the notification. -/
-example : ((stateAfter _ f4_ok).notes 0).notified = true ∧
-    ((stateAfter _ f4_ok).notes 2).notified = false ∧
-    ((stateAfter _ f4_ok).notes 2).parent = some 0 ∧
-    ((stateAfter _ f4_ok).notes 2).disconnecting = 0 := by decide
 
 /-! ### Non-vacuity -/
 
